@@ -29,7 +29,7 @@ Spec == Init /\ [][Choose]_vars
 Query == "select inode, path from " \o (IF spell = "dot" THEN "'.'" ELSE "'@ROOT@'") \o " gitignore" \o mode
          \o " where name != '.git' and path not like '%/.git/%' into list"
 Scenario == [prop |-> "C20", class |-> "git/several-repositories/" \o spell \o (IF mode = "" THEN "" ELSE "/" \o mode), world |-> W, tool |-> "git",
-             lines |-> <<>>, active |-> TRUE, root |-> 0,
+             lines |-> <<>>, active |-> TRUE, root |-> 0, ctxs |-> <<>>,
              env |-> [tz |-> "UTC", cwd |-> 0, config |-> [debug |-> FALSE, gitignore |-> FALSE, hgignore |-> FALSE, dockerignore |-> FALSE]],
              runs |-> << [tag |-> "q", ncols |-> 2, argv |-> << Query >>] >>]
 Emit == phase = "done" => PrintT(<<"REPLAY", ToJson(Scenario)>>)
